@@ -59,6 +59,12 @@
   creation from the template)                                   sessions; C11_create_modulo_pubbase,
                                                                C11_pubbase_shared_witness: why the
                                                                creation of A itself is excluded)
+  the one thing the realms of a router DO share is the time:    C11_clock_step, C11_clock_shared_step,
+  the router's clock is advanced by `tick` alone, a realm's     C11_clock_shared (over
+  by its own `tick` alone and by exactly `ms`; every realm of   `Router.ReachableT`),
+  the table shows the router's time (realms created later       C11_clock_shared_needs_untimed (why
+  start at the current time), in every router reachable by      not over `Router.Reachable`: `ROp.wf`
+  operations in which time passes through `ROp.tick` only       allows a tick wrapped into `ROp.sess`)
   sessions of a removed realm are inert: while the name is      C11_removed_sessions_inert,
   absent their operations do nothing; after a namesake has      C11_confined_to
   been added they observe nothing and cannot touch it
@@ -72,7 +78,8 @@
   NOTE on `ROp.sess k op`: the model type admits any `Realm.Op` as `op`, also a `join`; the
   router API (and the driver) produce only msg/drop/stall/resume of k.  The frame theorems hold
   for every `op`; the observation theorems and the invariant need `op` not to be a `join`
-  (`ROp.wf`): sessions attach through `ROp.join` only.
+  (`ROp.wf`): sessions attach through `ROp.join` only.  The shared-clock theorems need `op` not to
+  be a `tick` either (`ROp.untimedSess`): time passes through `ROp.tick` only.
 
   TRUSTED BASE specific to this file: that the real router has no state shared between realms
   is not a theorem about the model (the model is a table of independent `Realm`s — C11 is "true
@@ -82,6 +89,7 @@
 -/
 import Nexus.L2.Proofs.RouterFrame
 import Nexus.L2.Proofs.WpDRouterRun
+import Nexus.L2.Proofs.RouterClock
 
 namespace Nexus.C11
 open Nexus.L2 Nexus.L2.Router Nexus.L2.Realm
@@ -483,7 +491,7 @@ theorem C11_removed_sessions_inert (rt : Router) (A : String) (k : SessKey) (hk 
           | true =>
             obtain ⟨p, hp, e⟩ := List.any_eq_true.mp ha
             exact (realm?_none hn1 p hp (by simpa using e)).elim
-        have : (WpD.lookupR (rt1.realms ++ [(cfg.uri, { r0 with pubCount := rt1.created * 1000000 })]) A) = some r2 := h2
+        have : (WpD.lookupR (rt1.realms ++ [(cfg.uri, { r0 with pubCount := rt1.created * 1000000, now := rt1.now })]) A) = some r2 := h2
         rw [hcfg, WpD.lookupR_append_new _ hany] at this
         cases this
         have hc0 : Realm.Conf (fun _ => False) r0 := create_conf hcr _
@@ -528,7 +536,8 @@ open Nexus.L2.Router.WpD in
     the template).  The last one is the "modulo the publication-id base" caveat: the model numbers
     the publication-id placeholders of a new realm from `created * 1000000`, and `created` counts
     the realms of the whole router, so a realm `A` created in two runs that created different
-    numbers of OTHER realms differs in exactly `pubCount` (`C11_create_modulo_pubbase`,
+    numbers of OTHER realms differs in exactly `pubCount` — and in the clock it starts with, when the
+    two runs let different amounts of time pass before (`C11_create_modulo_pubbase`,
     `C11_pubbase_shared_witness`).  The real router draws publication ids from the process-wide
     random generator; the counter is a model device. -/
 theorem C11_run_noninterference (A : String) (rt₁ rt₂ : Router) (ops₁ ops₂ : List ROp)
@@ -592,11 +601,13 @@ example : RunExample.rtA.Inv ∧ (RunExample.rtA.sessRealm.map (·.1)).Nodup := 
 
 /-- The caveat of `C11_run_noninterference`, positively: an accepted `AddRealm cfg` yields, in
     whatever router, the realm `Realm.create cfg` with `pubCount` set to the router's
-    `created * 1000000` — so the realm created by the same operation in two routers is the same up
-    to that one field. -/
+    `created * 1000000` and the clock set to the router's (`now := rt.now`: time is global, a realm
+    created later starts at the current time, `C11_clock_shared`) — so the realm created by the same
+    operation in two routers is the same up to these two fields, and up to the first alone when the
+    two routers show the same time. -/
 theorem C11_create_modulo_pubbase (rt : Router) (cfg : Config) (r : Realm) (hcr : Realm.create cfg = some r)
     (hacc : (rt.closed || rt.realms.any (fun p => p.1 == cfg.uri)) = false) :
-    (rt.step (.addRealm cfg)).2.realm? cfg.uri = some { r with pubCount := rt.created * 1000000 } :=
+    (rt.step (.addRealm cfg)).2.realm? cfg.uri = some { r with pubCount := rt.created * 1000000, now := rt.now } :=
   WpD.create_modulo_pubbase rt cfg r hcr hacc
 
 example : (({} : Router).closed || ({} : Router).realms.any (fun p => p.1 == "a")) = false := rfl
@@ -615,6 +626,86 @@ theorem C11_pubbase_shared_witness (cfgA cfgB : Config) (rA rB : Realm) (hA : Re
   obtain ⟨a, b⟩ := pubbase_shared cfgA cfgB rA rB hA hB hne
   refine ⟨a, b, ?_⟩
   simp [projRun, concerns, hne]
+
+/-! ## The shared clock -/
+
+/-- The clocks, step by step.  The router's clock is advanced by `.tick ms` (by `ms`) and by no other
+    operation; a realm's clock is advanced by its own `Realm.step (.tick ms)` — to exactly `now + ms`,
+    whatever call timeouts and yield retries fire on the way — and by no other input. -/
+theorem C11_clock_step (rt : Router) (rop : ROp) (r : Realm) (op : Realm.Op) :
+    (rt.step rop).2.now = rt.now + rop.elapsed ∧ (r.step op).2.now = r.now + op.elapsed :=
+  ⟨Router.step_now rt rop, Realm.step_now r op⟩
+
+example : (ROp.tick 7).elapsed = 7 ∧ ROp.close.elapsed = 0 ∧ (Realm.Op.tick 7).elapsed = 7 ∧
+    (Realm.Op.drop 1).elapsed = 0 := ⟨rfl, rfl, rfl, rfl⟩
+
+/-- "Every realm shows the router's time" (`Router.ClockShared`) is preserved by every operation in
+    which time passes through `ROp.tick` only (`ROp.untimedSess`: a session operation is not a tick),
+    from EVERY router state: the clock advances all realms together with the router's own clock; a
+    realm created from the template or by `AddRealm` starts at the router's current time. -/
+theorem C11_clock_shared_step (rt : Router) (h : ∀ p ∈ rt.realms, p.2.now = rt.now) (rop : ROp)
+    (hu : rop.untimedSess) : ∀ p ∈ (rt.step rop).2.realms, p.2.now = (rt.step rop).2.now :=
+  Router.ClockShared.step h rop hu
+
+/-- THE CLOCK IS SHARED (time is global in the implementation).  In every router reachable from the
+    initial router (`Router.create cfgs` with any realm template) by well-formed operations in which
+    time passes through `ROp.tick` only (`Router.ReachableT`), every realm's clock equals the
+    router's.  In particular two realms of one router always show the same time, and a realm created
+    at time `t` answers time-bounded history queries like one that has existed since time 0. -/
+theorem C11_clock_shared (rt : Router) (h : Router.ReachableT rt) : ∀ p ∈ rt.realms, p.2.now = rt.now :=
+  h.clockShared
+
+/-- `Router.ReachableT` is `Router.Reachable` restricted to operations in which a session operation
+    is not a tick; every such router is reachable. -/
+theorem C11_reachableT_reachable (rt : Router) (h : Router.ReachableT rt) : Router.Reachable rt := h.reachable
+
+-- non-vacuity: the initial routers, with and without template, and the routers after a tick, an
+-- `AddRealm` and a join that creates a realm from the template are `ReachableT`
+example : Router.ReachableT {} := .init (cfgs := []) none rfl
+example (t : Config) : Router.ReachableT ((((templateRouter t).step (.tick 5)).2.step (.join "x" 1 false [] {} 8)).2) :=
+  .step _ (.step _ (.init (cfgs := []) (some t) rfl) trivial trivial) trivial trivial
+example : Router.ReachableT (((({} : Router).step (.tick 5)).2.step (.addRealm {})).2) :=
+  .step _ (.step _ (.init (cfgs := []) none rfl) trivial trivial) trivial trivial
+example (k : SessKey) (m : Msg) : (ROp.sess k (.msg k m)).untimedSess ∧ (ROp.sess k (.drop k)).untimedSess := ⟨rfl, rfl⟩
+
+/-- Why `C11_clock_shared` is not stated over `Router.Reachable`: the model TYPE allows a tick wrapped
+    into a session operation, `ROp.sess k (.tick ms)`, and `ROp.wf` (which excludes only wrapped
+    joins) allows it too.  In a router whose clocks agree, where session `k` is dispatched to an
+    existing realm `A`, that operation is well-formed, leaves the router's clock alone and advances
+    the clock of `A` alone: afterwards `A` is ahead of the router (and of every other realm).  The
+    router API and the driver never produce it (session operations are msg / drop / stall / resume /
+    buffer of `k`); it is a gap of `ROp.wf`, not a behaviour of nexus. -/
+theorem C11_clock_shared_needs_untimed (rt : Router) (h : ∀ p ∈ rt.realms, p.2.now = rt.now) (k : SessKey)
+    (A : String) (r : Realm) (hk : rt.realmOf k = some A) (hr : rt.realm? A = some r) (ms : Nat) :
+    (ROp.sess k (.tick (ms + 1))).wf ∧ ¬ (ROp.sess k (.tick (ms + 1))).untimedSess ∧
+    (rt.step (.sess k (.tick (ms + 1)))).2.now = rt.now ∧
+    ∃ r', (rt.step (.sess k (.tick (ms + 1)))).2.realm? A = some r' ∧ r'.now = rt.now + (ms + 1) := by
+  obtain ⟨a, b, c⟩ := Router.sess_tick_parts_clocks h hk hr ms
+  exact ⟨a, fun e => Nat.succ_ne_zero ms e, b, c⟩
+
+-- non-vacuity of `C11_clock_shared_needs_untimed`: its hypotheses hold in a router reachable without
+-- wrapped ticks — the initial router with the default realm "r" after session 5 joined it
+example : ∃ rt k A r, Router.ReachableT rt ∧ (∀ p ∈ rt.realms, p.2.now = rt.now) ∧ rt.realmOf k = some A ∧
+    rt.realm? A = some r := by
+  cases h : Router.create [{}] with
+  | none => exact absurd h (by decide +kernel)
+  | some rt0 =>
+    have hR : Router.ReachableT (({ rt0 with template := none } : Router).step (.join "r" 5 false [] [] 4)).2 :=
+      .step _ (.init none h) trivial trivial
+    have hk : (({ rt0 with template := none } : Router).step (.join "r" 5 false [] [] 4)).2.realmOf 5 = some "r" := by
+      have : (Router.create [{}]).map (fun rt0 =>
+          decide ((({ rt0 with template := none } : Router).step (.join "r" 5 false [] [] 4)).2.realmOf 5 = some "r")) =
+          some true := by decide +kernel
+      rw [h] at this
+      exact of_decide_eq_true (Option.some.inj this)
+    have hs : ((({ rt0 with template := none } : Router).step (.join "r" 5 false [] [] 4)).2.realm? "r").isSome = true := by
+      have : (Router.create [{}]).map (fun rt0 =>
+          ((({ rt0 with template := none } : Router).step (.join "r" 5 false [] [] 4)).2.realm? "r").isSome) = some true := by
+        decide +kernel
+      rw [h] at this
+      exact Option.some.inj this
+    obtain ⟨r, hr⟩ := Option.isSome_iff_exists.mp hs
+    exact ⟨_, 5, "r", r, hR, C11_clock_shared _ hR, hk, hr⟩
 
 /-! ## Meta API -/
 
